@@ -172,18 +172,27 @@ Section Ec.
     intros. unfold ecdh, from_affine. py.
     destruct (on_curve c x y); [|reflexivity]. cbn [negb].
     destruct (to_affine c (jac_mul c (x, y, 1) d)) as [|sx sy|] eqn:E; try reflexivity.
-    destruct (affine_coord_fits _ _ _ E) as [Hx _]. cbn [affv dhv]. py. rewrite Hx. reflexivity.
+    destruct (affine_coord_fits _ _ _ E) as [Hx _].
+    cbn -[Z.leb Z.ltb Z.pow to_be Z.to_nat Z.eqb].
+    change (if 0 <=? sx then sx <? 256 ^ 32 else false) with ((0 <=? sx) && (sx <? 256 ^ 32)).
+    rewrite Hx. reflexivity.
   Qed.
 
   Theorem generate_public_key_matches_source : forall d,
     run (("self", VStr "curve") :: curve_env) src_generate_public_key_params src_generate_public_key
         [VStr "curve"; VInt d] = affv (public_key c d).
-  Proof using p_pos. intros. unfold public_key. py. reflexivity. Qed.
+  Proof using p_pos.
+    intros. unfold public_key. py.
+    destruct (to_affine c (jac_mul c (cgx c, cgy c, 1) d)); reflexivity.
+  Qed.
 
   Theorem ecc_dh_matches_source : forall d xb yb,
     run (("self", VStr "key") :: key_env d) src_ecc_dh_params src_ecc_dh [VStr "key"; VBytes xb; VBytes yb] =
     dhv (ecc_dh c d xb yb).
-  Proof using p_pos. intros. unfold ecc_dh. py. reflexivity. Qed.
+  Proof using p_pos.
+    intros. unfold ecc_dh. py.
+    destruct (ecdh c d (be_int xb) (be_int yb)); reflexivity.
+  Qed.
 
   Theorem ecc_x_y_match_source : forall d,
     run (("self", VStr "key") :: key_env d) src_ecc_x_params src_ecc_x [VStr "key"] =
@@ -191,10 +200,14 @@ Section Ec.
     run (("self", VStr "key") :: key_env d) src_ecc_y_params src_ecc_y [VStr "key"] =
       match ecc_public c d with Some (_, ys) => VBytes ys | None => VErr end.
   Proof using p_pos p_small.
-    intros d. unfold ecc_public, public_key. py.
-    destruct (to_affine c (jac_mul c (cgx c, cgy c, 1) d)) as [|x y|] eqn:E; py.
+    intros d. unfold ecc_public. py.
+    destruct (public_key c d) as [|x y|] eqn:E.
     - split; reflexivity.
-    - destruct (affine_coord_fits _ _ _ E) as [Hx Hy]. rewrite Hx, Hy. split; reflexivity.
+    - unfold public_key in E. destruct (affine_coord_fits _ _ _ E) as [Hx Hy].
+      cbn -[Z.leb Z.ltb Z.pow to_be Z.to_nat Z.eqb].
+      change (if 0 <=? x then x <? 256 ^ 32 else false) with ((0 <=? x) && (x <? 256 ^ 32)).
+      change (if 0 <=? y then y <? 256 ^ 32 else false) with ((0 <=? y) && (y <? 256 ^ 32)).
+      rewrite Hx, Hy. split; reflexivity.
     - split; reflexivity.
   Qed.
 End Ec.
